@@ -1,3 +1,4 @@
 //! shared helpers for the verification harness binaries
 pub mod util;
 pub mod arch;
+pub mod refdec;
